@@ -85,11 +85,14 @@ CLAIMED = {
                      "scheduler-driven run (families incl. pair and chain) judged by WellFormed + three-view equality (TraceLin QUIES).", note=SEQ_NOTE + "; concurrent part: " + CONC_NOTE,
                 tech=SEQ_TECH + "; " + CONC_TECH),
     "C10": dict(cat="model_checking", ref="DESIGN.md 6 (C10)",
-                text="First sentence (sequential cursor): every real iscan_open/next sequence (both directions, all endpoint kinds, early stop) is judged by TLC "
+                text="M (second sentence): the cursor at hook grain in YkConc4 (iscan_open, iscan_next with iscan_check_retry, neighbour move, retry_after_fb, "
+                     "retry_from_root) over 2-3 borders vs split, interior insert, collapse / new root, insert, remove, unlink + re-insert: ScanOK, NvOK in all "
+                     "interleavings of 5 programs, and step-level conformance of the real cursor to it. First sentence (sequential cursor): every real iscan_open/next sequence (both directions, all endpoint kinds, early stop) is judged by TLC "
                      "against the ordered abstract map incl. full_key and argument rejection. Second sentence: cursor steps of one thread interleaved with writers "
                      "of another under the deterministic scheduler (trees with next layers included): monotone in-interval keys, values placed in the per-key "
                      "linearization, stable keys not skipped, the callback's version set judged as in C06, faults reported; paused cursors (a write between two iscan_next calls, incl. "
-                     "removal of the whole layer under the cursor) incl. early_abort.", note=SEQ_NOTE, tech="TLC trace validation of real cursor executions (TraceTree ON={C10})"),
+                     "removal of the whole layer under the cursor) incl. early_abort.", note=SEQ_NOTE + "; concurrent part: " + CONC_NOTE,
+                tech="TLC trace validation of real cursor executions (TraceTree ON={C10}); " + CONC_TECH),
     "C12": dict(cat="model_checking", ref="DESIGN.md 6 (C12)",
                 text="TLC checks the report rule on every inserting/updating Put of small models (LastOK) and judges every real put (inserted_node_info and legacy "
                      "overload) against the set of border version words that actually changed (driver snapshots all borders before/after) and the split sibling.",
